@@ -52,7 +52,7 @@ func (x *SX) String() string {
 
 var unordered = map[string]bool{"buses": true, "ifaces": true, "msgs": true, "builders": true, "nodes": true,
 	"types": true, "units": true, "enums": true, "attrs": true, "as": true, "pas": true, "recs": true,
-	"children": true, "vals": true}
+	"children": true, "vals": true, "received": true}
 
 // Canon sorts the children of the lists whose order is not observable (same rule as the driver).
 func Canon(x *SX) *SX {
@@ -107,6 +107,33 @@ func Diff(path string, a, b *SX) string {
 		}
 	}
 	return ""
+}
+
+// DiffAll collects every differing place of two canonical expressions (at most 20).
+func DiffAll(path string, a, b *SX, acc []string) []string {
+	if len(acc) >= 20 {
+		return acc
+	}
+	if !a.IsL && !b.IsL {
+		if a.Atom != b.Atom {
+			acc = append(acc, path+": "+a.Atom+" vs "+b.Atom)
+		}
+		return acc
+	}
+	if a.IsL != b.IsL {
+		return append(acc, path+": atom vs list")
+	}
+	if len(a.List) != len(b.List) {
+		return append(acc, path+": "+strconv.Itoa(len(a.List))+" vs "+strconv.Itoa(len(b.List))+" items")
+	}
+	tag := ""
+	if len(a.List) > 0 && !a.List[0].IsL {
+		tag = a.List[0].Atom
+	}
+	for i := range a.List {
+		acc = DiffAll(path+"/"+tag+"["+strconv.Itoa(i)+"]", a.List[i], b.List[i], acc)
+	}
+	return acc
 }
 
 // SplitMix64: every random choice of the harness derives from VERIF_SEED.
